@@ -3,6 +3,7 @@
 
 mod archive;
 mod codec;
+mod files;
 mod hilbert;
 mod store;
 mod util;
@@ -37,6 +38,10 @@ fn main() {
                     let zmax: u8 = arg(&args, "--zmax").map_or(8, |s| s.parse().expect("zmax"));
                     hilbert::drive(seed, &tier, zmax, &mut out);
                 }
+                "files" => files::drive_files(seed, &tier, arg(&args, "--stim"), arg(&args, "--mode").unwrap_or("c03"), &mut out),
+                "reject" => files::drive_reject(seed, &mut out),
+                "writedirs" => files::drive_writedirs(seed, &tier, &mut out),
+                "steer" => files::drive_steer(seed, &tier, &mut out),
                 "history" => store::drive_history(seed, &tier, &mut out),
                 "bulk" => store::drive_bulk(seed, &tier, &mut out),
                 "canon" => {
